@@ -261,3 +261,70 @@ def pythagorean_angle(rng):
     if rng.random() < 0.5:
         s = -s
     return c, s, math.atan2(float(s), float(c))
+
+
+# ----------------------------------------------------------- concave families
+def comb_polygon(rng, teeth=None, bits=10):
+    """comb: a base bar with `teeth` teeth (strongly concave, many reflex vertices), ccw"""
+    t = teeth or rng.randint(2, 14)
+    w = dy(rng.uniform(0.5, 2.0)); g = dy(rng.uniform(0.5, 2.0)); h = dy(rng.uniform(2.0, 8.0)); b = dy(rng.uniform(0.5, 2.0))
+    pts = [(0.0, 0.0)]
+    total = t * w + (t - 1) * g
+    pts.append((total, 0.0))
+    x = total
+    for i in range(t):
+        pts.append((x, b + h + (0.0 if i % 2 == 0 else dy(rng.uniform(0, 1)))))
+        pts.append((x - w, b + h))
+        x -= w
+        if i < t - 1:
+            pts.append((x, b))
+            pts.append((x - g, b))
+            x -= g
+    ox, oy = dy(rng.uniform(-50, 50)), dy(rng.uniform(-50, 50))
+    pts = [(p[0] + ox, p[1] + oy) for p in pts]
+    return pts if certify_polygon(pts) else star_polygon(rng)
+
+
+def spiral_polygon(rng, turns=None):
+    """rectilinear spiral corridor, ccw"""
+    n = turns or rng.randint(2, 7)
+    w = 1.0
+    # outer path going inwards, then inner path back
+    outer, inner = [], []
+    x0, y0, x1, y1 = 0.0, 0.0, 4.0 * n + 2, 4.0 * n + 2
+    pts_out = [(x0, y0)]
+    dirs = 0
+    a, b, c, d = x0, y0, x1, y1
+    path = [(a, b), (c, b), (c, d), (a, d)]
+    k = 0
+    while c - a > 4 * w and d - b > 4 * w and k < n:
+        a2, b2, c2, d2 = a + 2 * w, b + 2 * w, c - 2 * w, d - 2 * w
+        path += [(a, b + 2 * w), (c2, b + 2 * w), (c2, d2), (a2, d2)] if False else []
+        a, b, c, d = a2, b2, c2, d2
+        k += 1
+    # simpler: build a spiral as the boundary of a corridor cell set
+    cells = set()
+    size = 4 * n + 1
+    x, y, dx, dy_ = 0, 0, 1, 0
+    lo_x, lo_y, hi_x, hi_y = 0, 0, size - 1, size - 1
+    steps = 0
+    while lo_x <= hi_x and lo_y <= hi_y and steps < 4 * n:
+        if steps % 4 == 0:
+            for i in range(lo_x, hi_x + 1): cells.add((i, lo_y))
+            lo_y += 2
+        elif steps % 4 == 1:
+            for j in range(lo_y - 2, hi_y + 1): cells.add((hi_x, j))
+            hi_x -= 2
+        elif steps % 4 == 2:
+            for i in range(lo_x, hi_x + 3): cells.add((i, hi_y))
+            hi_y -= 2
+        else:
+            for j in range(lo_y, hi_y + 3): cells.add((lo_x, j))
+            lo_x += 2
+        steps += 1
+    if not cells_ok(cells):
+        return star_polygon(rng)
+    loop = cells_boundary(cells)[0]
+    s = dy(rng.uniform(0.5, 3.0)); ox, oy = dy(rng.uniform(-50, 50)), dy(rng.uniform(-50, 50))
+    pts = [(p[0] * s + ox, p[1] * s + oy) for p in loop]
+    return pts if certify_polygon(pts) else star_polygon(rng)
